@@ -45,32 +45,58 @@ def replay_batched(requests, mode, profile="dev", nworkers=8, timeout=120.0, siz
 def validate(module, cfg, traces, tag, batch=40000, workers=6, timeout=900, extra_env=None):
     """traces: list of dicts with a unique "id" (what the trace specification reads).  Returns
     ({id: verdict record}, tlc statistics).  Every trace gets exactly one VERDICT record; a TLC
-    failure or a missing verdict is a tool error, never a verdict."""
+    failure or a missing verdict is a tool error, never a verdict.
+    The traces are split over `workers` single-worker TLC processes running side by side (measured:
+    one TLC process with 6 workers is hardly faster than with 1 on this kind of specification -
+    every state reads the shared, deserialised trace constant)."""
+    import threading
     verdicts = {}
     stats = {"runs": 0, "states": 0, "wall_s": 0.0}
-    for lo in range(0, len(traces), batch):
-        part = traces[lo:lo + batch]
-        path = os.path.join(common.VERIF, "work", "%s_%d_%d.ndjson" % (tag, os.getpid(), lo))
+    if not traces:
+        return verdicts, stats
+    nproc = max(1, min(workers, (len(traces) + 499) // 500))
+    parts = [traces[k::nproc] for k in range(nproc)]
+    errors = []
+    lock = threading.Lock()
+    import time as _time
+    t0 = _time.time()
+
+    def one(k, part):
+        path = os.path.join(common.VERIF, "work", "%s_%d_%d.ndjson" % (tag, os.getpid(), k))
         tlc.write_ndjson(path, part)
         env = {"TRACES": path}
         if extra_env:
             env.update(extra_env)
         try:
-            r = tlc.run(module, cfg, workers=workers, env=env, timeout=timeout, coverage=False, xmx="10g")
+            r = tlc.run(module, cfg, workers=1, env=env, timeout=timeout, coverage=False, xmx="3g")
+        except Exception as e:        # noqa: BLE001
+            with lock:
+                errors.append("%s: %r" % (module, e))
+            return
         finally:
             try:
                 os.remove(path)
             except OSError:
                 pass
-        if r.timed_out or r.rc != 0:
-            raise common.ToolError("%s failed rc=%s timed_out=%s %s\n%s" % (module, r.rc, r.timed_out, r.errors[:3], "\n".join(r.tail[-15:])))
-        stats["runs"] += 1
-        stats["states"] += r.distinct
-        stats["wall_s"] = round(stats["wall_s"] + r.wall, 1)
-        for v in r.records:
-            if v.get("tag") == "VERDICT":
-                verdicts[part[v["i"] - 1]["id"]] = v
-        missing = [t["id"] for t in part if t["id"] not in verdicts]
-        if missing:
-            raise common.ToolError("%s: %d trace(s) without a verdict (first id %s)" % (module, len(missing), missing[0]))
+        with lock:
+            if r.timed_out or r.rc != 0:
+                errors.append("%s failed rc=%s timed_out=%s %s\n%s" % (module, r.rc, r.timed_out, r.errors[:3], "\n".join(r.tail[-15:])))
+                return
+            stats["runs"] += 1
+            stats["states"] += r.distinct
+            for v in r.records:
+                if v.get("tag") == "VERDICT":
+                    verdicts[part[v["i"] - 1]["id"]] = v
+
+    threads = [threading.Thread(target=one, args=(k, part), daemon=True) for k, part in enumerate(parts)]
+    for t in threads:
+        t.start()
+    for t in threads:
+        t.join()
+    if errors:
+        raise common.ToolError(errors[0])
+    stats["wall_s"] = round(_time.time() - t0, 1)
+    missing = [t["id"] for t in traces if t["id"] not in verdicts]
+    if missing:
+        raise common.ToolError("%s: %d trace(s) without a verdict (first id %s)" % (module, len(missing), missing[0]))
     return verdicts, stats
